@@ -529,6 +529,85 @@ func (e *SpecEnv) call(n *SCall) Val {
 		x.u.regHeap("atomic.Bool.v", "(Array Int Bool)")
 		r := e.Eval(n.Args[0])
 		return Val{T: "(select " + x.getHeap(e.st, "atomic.Bool.v") + " " + r.T + ")", S: "Bool"}
+	case "hasFormat":
+		// hasFormat(s, "<format>", a1, ..., an): the string was built by fmt.Sprintf with exactly
+		// this format from exactly these values, and the format determines its arguments
+		// (verbs are %d / fixed-width hex %s, every two of them separated by a literal that
+		// starts with a character that is neither a digit nor a hex letter)
+		if len(n.Args) < 2 {
+			specFail("hasFormat(s, format, args...)")
+		}
+		sv := e.Eval(n.Args[0])
+		fl, ok := n.Args[1].(*SLit)
+		if !ok || fl.Kind != "string" {
+			specFail("hasFormat: the format must be a string literal")
+		}
+		f, ok := x.fmtOf[sv.T]
+		if !ok {
+			// nothing is known about how the string was built: neither true nor false
+			return Val{T: x.u.fresh("fmt_unknown", "Bool"), S: "Bool"}
+		}
+		var conj []string
+		ai := 2
+		format := fl.Val
+		si := 0
+		lit := ""
+		bad := false
+		prevVerb := false
+		flush := func() {
+			if lit == "" {
+				return
+			}
+			if si >= len(f.segs) || f.segs[si].kind != "lit" || f.segs[si].lit != lit {
+				bad = true
+			}
+			c0 := lit[0]
+			if prevVerb && (isDigit(c0) || (c0 >= 'a' && c0 <= 'f') || (c0 >= 'A' && c0 <= 'F')) {
+				bad = true
+			}
+			si++
+			lit = ""
+			prevVerb = false
+		}
+		for i := 0; i < len(format) && !bad; i++ {
+			ch := format[i]
+			if ch != '%' {
+				lit += string(ch)
+				continue
+			}
+			i++
+			if i >= len(format) {
+				bad = true
+				break
+			}
+			if format[i] == '%' {
+				lit += "%"
+				continue
+			}
+			flush()
+			if prevVerb || ai >= len(n.Args) || si >= len(f.segs) {
+				bad = true
+				break
+			}
+			a := e.Eval(n.Args[ai])
+			ai++
+			seg := f.segs[si]
+			switch {
+			case format[i] == 'd' && seg.kind == "dec":
+				conj = append(conj, "(= "+seg.arg+" "+a.T+")")
+			case format[i] == 's' && seg.kind == "hex":
+				conj = append(conj, "(= "+seg.arg+" "+a.T+")")
+			default:
+				bad = true
+			}
+			si++
+			prevVerb = true
+		}
+		flush()
+		if bad || si != len(f.segs) || ai != len(n.Args) {
+			return Val{T: "false", S: "Bool"}
+		}
+		return Val{T: "(and true " + strings.Join(conj, " ") + ")", S: "Bool"}
 	case "errstr":
 		x.u.declSort("GoString")
 		x.need("errstr")
